@@ -13,6 +13,7 @@
   shape returns both counters (safeops, vigil) to their entry value on every exit, panics included.
 -/
 import Hv.Conc.VigilLemmas
+import Hv.Conc.VigilMu
 import Hv.Basic.Verdict
 
 namespace Hv.C17
@@ -23,7 +24,11 @@ def OpsFinished (s : St) : Prop := s.vigils = 0 ∧ s.pendingB = 0
 
 /-- The full-strength statement. -/
 structure Holds (cfg : Cfg) (handlers : List (String × List Tok)) (ceaseBeforeDestroy : Bool := true)
-    (closeAlwaysCancels : Bool := true) : Prop where
+    (closeAlwaysCancels : Bool := true) (drainBeforeSwampMu : Bool := true) : Prop where
+  /-- `destroy` never waits for the vigil drain while it holds the swamp's write lock `s.mu`: the
+      write path holds its vigil across `s.mu.RLock()` (BeginVigil → Save → SaveFunction → RLock),
+      so a destroyer that locks first and drains second blocks the operations it waits for -/
+  noMuDeadlock : ∀ as s, VigilMu.run ⟨!drainBeforeSwampMu⟩ VigilMu.init as = some s → ¬ VigilMu.Stuck s
   /-- every path through `Close()` after `closing = 1` reaches `goRoutineCancelFunction()`: a
       `WaitForGracefulClose` caller can return once Close has run -/
   closeCompletes : (run cfg init (closeTrace closeAlwaysCancels)).isSome = true
@@ -93,8 +98,8 @@ theorem graceful_any (cfg : Cfg) :
   · intro s hc; simp [step, hc]
 
 theorem holds_good (handlers : List (String × List Tok))
-    (hp : ∀ h ∈ handlers, Paired h.2 = true) : Holds good handlers true true := by
-  refine ⟨by decide, by decide, no_lost_wakeup, ?_, ?_, graceful_any good, ?_, fun h hh n c => defer_balance_autodestroy h.2 (hp h hh) n c⟩
+    (hp : ∀ h ∈ handlers, Paired h.2 = true) : Holds good handlers true true true := by
+  refine ⟨VigilMu.no_mu_deadlock, by decide, by decide, no_lost_wakeup, ?_, ?_, graceful_any good, ?_, fun h hh n c => defer_balance_autodestroy h.2 (hp h hh) n c⟩
   · intro as s w h ⟨hv, hb⟩ hni hnd
     have hi := reach_inv as s h
     -- nobody is in `checked`/`added` (they would need vigils > 0), nobody is parked or ticketed
@@ -200,6 +205,19 @@ theorem refutes_destroyHoldingVigil (cfg : Cfg) (handlers : List (String × List
     | mk d c => cases d <;> cases c <;> decide
   rw [hr] at this; simp at this
 
+/-- `s.mu.Lock()` before the drain: one Save in flight when `destroy` starts is enough — the
+    writer waits for the read lock, the destroyer for the writer's vigil (`VigilMu.witness_stuck`,
+    permanent by `VigilMu.stuck_forever`) -/
+theorem refutes_lockBeforeDrain (cfg : Cfg) (handlers : List (String × List Tok)) (c cl : Bool) :
+    ¬ Holds cfg handlers c cl false := by
+  intro h
+  have hw := VigilMu.witness_stuck
+  cases hs : VigilMu.run ⟨true⟩ VigilMu.init VigilMu.witness with
+  | none => simp [hs] at hw
+  | some s =>
+    simp [hs] at hw
+    exact h.noMuDeadlock VigilMu.witness s hs ⟨hw.1, hw.2.1, by omega, hw.2.2.2.1, hw.2.2.2.2⟩
+
 /-- `_partial`: what survives the lost wake-up — handler balance and the latch part. -/
 structure HoldsPartial (cfg : Cfg) (handlers : List (String × List Tok)) : Prop where
   graceful : (∀ s w, s.wpc w = .done → ∃ s', step cfg s (.wCancel w) = some s' ∧ s'.cancelled = true) ∧
@@ -234,6 +252,9 @@ structure Facts where
   /-- every auto-destroy site of swamp.go (`DeleteTreasure`, `CloneAndDelete…`) calls `s.CeaseVigil()`
       immediately before `s.Destroy()` -/
   ceasePrecedesDestroy : Tri
+  /-- `destroy`: `s.Vigil.WaitForActiveVigilsClosed()` comes before `s.mu.Lock()` (the swamp mutex the
+      write path read-locks while it holds its vigil) -/
+  drainBeforeSwampMu : Tri
   /-- every RPC handler (and closure) of the gateway with its counter statements in source order -/
   handlers : List (String × List Tok)
   deriving Repr
@@ -251,6 +272,10 @@ def triBool : Tri → Option Bool
 def classify (f : Facts) : Verdict :=
   if !structural f then .undetermined "vigil.go / swamp.go / safeops.go no longer have the modelled shape" else
   if !allPaired f then .undetermined "a gateway handler changes a counter outside a paired call+defer" else
+  match triBool f.drainBeforeSwampMu with
+  | none => .undetermined "swamp.drainBeforeSwampMu"
+  | some false => .violated ["C17-destroy-locks-swamp-before-drain"]
+  | some true =>
   match triBool f.closeCancels, triBool f.ceasePrecedesDestroy, triBool f.decrementUnderCondLock, triBool f.checkStrict with
   | some false, some _, some _, some _ => .violated ["C17-close-never-completes"]
   | some true, some false, some _, some _ => .violated ["C17-destroy-holding-own-vigil"]
@@ -263,9 +288,10 @@ def cfgOf (f : Facts) : Cfg :=
   { decUnderLock := f.decrementUnderCondLock.isYes, checkStrict := f.checkStrict.isYes }
 def ceaseOf (f : Facts) : Bool := f.ceasePrecedesDestroy.isYes
 def closeOf (f : Facts) : Bool := f.closeCancels.isYes
+def muOf (f : Facts) : Bool := f.drainBeforeSwampMu.isYes
 
 theorem classify_sound (f : Facts) :
-    (classify f).Sound (Holds (cfgOf f) f.handlers (ceaseOf f) (closeOf f)) (HoldsPartial (cfgOf f) f.handlers) := by
+    (classify f).Sound (Holds (cfgOf f) f.handlers (ceaseOf f) (closeOf f) (muOf f)) (HoldsPartial (cfgOf f) f.handlers) := by
   unfold classify
   split
   · simp [Verdict.Sound]
@@ -275,10 +301,12 @@ theorem classify_sound (f : Facts) :
       have hp' : ∀ h ∈ f.handlers, Paired h.2 = true := by
         simp only [allPaired, Bool.not_eq_true, Bool.not_eq_false'] at hp
         simpa [List.all_eq_true] using hp
+      cases hm : f.drainBeforeSwampMu <;>
       cases hy : f.closeCancels <;> cases hx : f.ceasePrecedesDestroy <;> cases hd : f.decrementUnderCondLock <;> cases hc : f.checkStrict <;>
-        simp only [triBool, Verdict.Sound, cfgOf, ceaseOf, closeOf, hy, hx, hd, hc, Tri.isYes] <;>
+        simp only [triBool, Verdict.Sound, cfgOf, ceaseOf, closeOf, muOf, hm, hy, hx, hd, hc, Tri.isYes] <;>
         first
           | trivial
+          | exact ⟨refutes_lockBeforeDrain _ _ _ _, holds_partial _ _ hp'⟩
           | exact ⟨refutes_closeAborts _ _ _, holds_partial _ _ hp'⟩
           | exact holds_good f.handlers hp'
           | exact ⟨refutes_looseCheck _ _ _ _, holds_partial _ _ hp'⟩
